@@ -16,6 +16,7 @@ package main
 import (
 	"fmt"
 	"io"
+	"runtime/debug"
 	"sort"
 	"sync"
 	"time"
@@ -72,6 +73,7 @@ func run(c *vf.Ctx) {
 	c.Assume("crypto/dsa, crypto/aes, crypto/hmac, crypto/sha1, crypto/sha256, math/big and encoding/base64 of the standard library are trusted")
 	c.Assume("DSA keys and all Conversation randomness come from a deterministic SHA-256 counter stream; a different seed changes texts and secrets only")
 	c.Assume("fragment reassembly, message framing and the data-message layout are modelled from the OTR v2 protocol description (ref/otrref)")
+	debug.SetGCPercent(400) // many short-lived big.Ints and slices; the live heap stays small
 	genKeys()
 	initValues(c)
 
@@ -99,7 +101,7 @@ func run(c *vf.Ctx) {
 		passes = []*passOpts{
 			{name: "E1 full script, all menus, 32 offsets, bound 1", withSMP: true, faultPhase: allPhases(), subOffsets: 32, fragOps: true, benign: true, bound: 1},
 			{name: "E2 script without SMP, all menus, 32 offsets, bound 2", withSMP: false, faultPhase: allPhases(), subOffsets: 32, fragOps: true, benign: true, bound: 2},
-			{name: "E3 full script, faults on SMP/post/End messages, 16 offsets, bound 2", withSMP: true, faultPhase: smpOnly, subOffsets: 16, fragOps: true, benign: true, bound: 2},
+			{name: "E3 full script, faults on SMP/post/End messages, 8 offsets, bound 2", withSMP: true, faultPhase: smpOnly, subOffsets: 8, fragOps: true, benign: true, bound: 2},
 			{name: "E4 script without SMP, all menus, 2 offsets, bound 3", withSMP: false, faultPhase: allPhases(), subOffsets: 2, fragOps: true, benign: true, bound: 3},
 		}
 	}
